@@ -294,6 +294,8 @@ var (
 	vsExpect   = map[int]int{}
 	vsSteps    []verifStep
 	vsReason   string
+	vsGen      int  // generation: goroutines and controllers of earlier attempts must not touch the current one
+	vsComplete bool // the controller released every recorded step
 )
 
 func verifGoid() int64 {
@@ -313,10 +315,13 @@ func verifGoid() int64 {
 func verifSchedReset(steps []verifStep, guided bool) {
 	vsMu.Lock()
 	defer vsMu.Unlock()
+	vsGen++
+	vsComplete = false
 	vsGuided, vsFree, vsDeviated, vsReason = guided, !guided, false, ""
 	vsIDs, vsNext = map[int64]int{}, 0
 	vsArrived, vsFinished, vsReleased, vsExpect = map[int]bool{}, map[int]bool{}, map[int]int{}, map[int]int{}
 	vsSteps = steps
+	vsCond.Broadcast() // goroutines of an earlier attempt that are still parked leave
 }
 
 // verifYield is called (by the instrumented copy of joe.go and by harness code)
@@ -331,10 +336,14 @@ func verifYield() {
 	if id == 0 {
 		return
 	}
+	gen := vsGen
 	vsArrived[id] = true
 	vsCond.Broadcast()
-	for vsReleased[id] == 0 && !vsFree {
+	for vsGen == gen && vsReleased[id] == 0 && !vsFree {
 		vsCond.Wait()
+	}
+	if vsGen != gen {
+		return // left over from an earlier attempt
 	}
 	if vsReleased[id] > 0 {
 		vsReleased[id]--
@@ -379,16 +388,21 @@ func verifGoNative(f func()) {
 	vsMu.Lock()
 	vsNext++
 	id := vsNext
+	gen := vsGen
 	guided := vsGuided && !vsFree
 	vsMu.Unlock()
 	go func() {
 		vsMu.Lock()
-		vsIDs[verifGoid()] = id
+		if vsGen == gen {
+			vsIDs[verifGoid()] = id
+		}
 		vsMu.Unlock()
 		defer func() {
 			vsMu.Lock()
-			vsFinished[id] = true
-			vsCond.Broadcast()
+			if vsGen == gen {
+				vsFinished[id] = true
+				vsCond.Broadcast()
+			}
 			vsMu.Unlock()
 		}()
 		f()
@@ -413,8 +427,9 @@ func verifCondWait(d time.Duration) {
 func verifController() {
 	vsMu.Lock()
 	defer vsMu.Unlock()
+	gen := vsGen
 	for _, st := range vsSteps {
-		if vsFree {
+		if vsFree || vsGen != gen {
 			return
 		}
 		deadline := time.Now().Add(500 * time.Millisecond)
@@ -426,8 +441,11 @@ func verifController() {
 			}
 			return true
 		}
-		for !all() && !vsFree && time.Now().Before(deadline) {
+		for !all() && !vsFree && vsGen == gen && time.Now().Before(deadline) {
 			verifCondWait(20 * time.Millisecond)
+		}
+		if vsGen != gen {
+			return
 		}
 		if !all() {
 			vsReason = fmt.Sprintf("step %v: not all goroutines arrived (arrived=%v finished=%v)", st, vsArrived, vsFinished)
@@ -453,11 +471,17 @@ func verifController() {
 			}
 			return true
 		}
-		for !settled() && !vsFree && time.Now().Before(settle) {
+		for !settled() && !vsFree && vsGen == gen && time.Now().Before(settle) {
 			verifCondWait(2 * time.Millisecond)
 		}
 	}
+	if vsGen != gen {
+		return
+	}
 	// the recorded schedule is exhausted: everything else runs freely
+	if !vsFree {
+		vsComplete = true
+	}
 	vsFree = true
 	vsCond.Broadcast()
 }
@@ -474,6 +498,15 @@ func verifRunThreads(maxSteps int) int {
 	go func() { verifWG.Wait(); close(done) }()
 	select {
 	case <-done:
+		if guided {
+			// give the controller the moment it needs to notice that its schedule is exhausted
+			vsMu.Lock()
+			limit := time.Now().Add(200 * time.Millisecond)
+			for !vsComplete && !vsDeviated && !vsFree && time.Now().Before(limit) {
+				verifCondWait(5 * time.Millisecond)
+			}
+			vsMu.Unlock()
+		}
 		return 0
 	case <-time.After(2 * time.Second):
 		vsMu.Lock()
@@ -487,12 +520,15 @@ func verifRunThreads(maxSteps int) int {
 func verifDeviated() bool {
 	vsMu.Lock()
 	defer vsMu.Unlock()
-	return vsDeviated
+	return vsDeviated || !vsComplete
 }
 
 func verifDeviationReason() string {
 	vsMu.Lock()
 	defer vsMu.Unlock()
+	if vsReason == "" && !vsComplete {
+		return "the recorded schedule was not completed"
+	}
 	return vsReason
 }
 
